@@ -194,9 +194,9 @@ partial def loop (h : IO.FS.Stream) (out : IO.FS.Stream) : IO Unit := do
   -- Write calls of the streaming entry point; the packets do not depend on it
   -- (Props/C13: any split of the plaintext yields the one-shot plan)
   let strip (toks : List String) : List String := match toks.getLast? with
-    | some t => if (t.startsWith "w=" || t.startsWith "rd=") && toks.length > 1 then toks.dropLast else toks
+    | some t => if (t.startsWith "w=" || t.startsWith "rd=" || t.startsWith "re=") && toks.length > 1 then toks.dropLast else toks
     | none => toks
-  let toks := strip (strip toks)
+  let toks := strip (strip (strip toks))
   -- a trailing `ep=<form>` selects the entry-point form of an open/verify request:
   -- `all` (Open / Verify / SigncryptOpen) and `arm` (the Dearmor62… all-at-once
   -- forms on the armored bytes) return NOTHING unless the run ended cleanly
